@@ -3,15 +3,15 @@ CONSTANTS
  MaxBatches = 3
  BatchSizes = {1,2}
  Cap = 2
- SyncWrites = FALSE
- Spill = TRUE
+ SyncWrites = TRUE
+ Spill = FALSE
  MaxHist = 0
  Keys = {1,2}
  NBuckets = 1
  VCap = 0
  MaxGC = 0
  MaxCrash = 1
- FlushWorkers = 1
+ FlushWorkers = 2
  GcSync = TRUE
  GcExact = TRUE
 VIEW view
